@@ -439,6 +439,36 @@ pub fn retarget_changes(rng: &mut Rng, plan: &mut Plan) {
     plan.changes.sort_by_key(|c| c.at_ms);
 }
 
+/// An application whose event loop has a ticker of its own (see `Consumer::Ticking`).
+pub fn ticking_consumer(rng: &mut Rng, plan: &Plan) -> Consumer {
+    Consumer::Ticking {
+        period_ms: *rng.pick(&[1u64, 1, 2, 3, 7]),
+        until_ms: (rough_span(plan)
+            .max(plan.changes.iter().map(|c| c.at_ms).max().unwrap_or(0))
+            + 300)
+            .min(4000),
+        form: rng.below(3) as u8,
+    }
+}
+
+/// A long quiet stretch (half a minute to an hour) in the middle of the session: one more caller
+/// that waits that long and then issues a request. A client that does something of its own on a
+/// long timer (keep-alive, refresh, liveness probe) is active at instants no short scenario
+/// reaches; `retarget_changes`, called afterwards, moves change events next to whatever it did
+/// there (on the code as it stands: nothing, the stretch is simply silent).
+pub fn add_long_quiet(rng: &mut Rng, plan: &mut Plan, ids: &mut Ids) {
+    let ms = *rng.pick(&[10_500u64, 31_000, 61_000, 125_000, 301_000, 601_000, 3_601_000]);
+    let id = ids.next();
+    plan.callers.push(vec![Op::Think { ms }, Op::Request { id }]);
+    for _ in 0..rng.urange(1, 3) {
+        plan.changes.push(ChangeEvent {
+            at_ms: rng.below(ms),
+            names: gen_names(rng, false, 2),
+        });
+    }
+    plan.changes.sort_by_key(|c| c.at_ms);
+}
+
 /// Plans with hundreds of operations or notifications get a coarse network: every event of a
 /// run is logged, and a long history fed bytewise with millisecond gaps would spend its whole
 /// event budget on reads.
